@@ -254,6 +254,44 @@ def timing_evidence(res: Result, rng: random.Random):
     return []
 
 
+def render_headers(res: Result, rng: random.Random) -> list:
+    """Rendering a decoded message header (and the message) as text never raises: every flag octet, boundary
+    versions / lengths / codes / identifiers; typed, untyped-placeholder and unknown commands."""
+    from diameter.message import Message, MessageHeader
+    out = []
+    bad = 0
+    for flags in range(256):
+        for code in (257, 272, 280, 999, 8388620, 0, 2 ** 24 - 1):
+            ver = rng.choice([1, 0, 255])
+            ids = [rng.choice([0, 1, 2 ** 31, 2 ** 32 - 1]) for _ in range(3)]
+            wire = gen.rfc_header(ver, 20, flags, code, *ids)
+            res.cases += 1
+            try:
+                h = MessageHeader.from_bytes(wire)
+                str(h)
+                repr(h)
+            except Exception as e:  # noqa
+                bad += 1
+                if len(out) < 3:
+                    out.append({"what": f"rendering a decoded message header as text raised {type(e).__name__}: {e}",
+                                "line": f"HEADERSTR {wire.hex()}"})
+                continue
+            try:
+                m = Message.from_bytes(wire)
+            except Exception:  # noqa   (judged by MSGDEC)
+                continue
+            try:
+                str(m)
+                str(m.header)
+            except Exception as e:  # noqa
+                bad += 1
+                if len(out) < 3:
+                    out.append({"what": f"rendering a decoded message as text raised {type(e).__name__}: {e}",
+                                "line": f"MSGSTR {wire.hex()}"})
+    res.count("header-render", 256 * 7)
+    return out
+
+
 def run(res: Result, tier: str, seed: int):
     rng = random.Random(seed * 1000003 + 4)
     res.rule = ("valid messages (incl. nesting 16) x every prefix, bit flips, every length field x 9 boundary values; every AVP "
@@ -262,6 +300,7 @@ def run(res: Result, tier: str, seed: int):
                 "errors, position <= len, wall-clock guard; non-trivial = distinct lines the real code did not reject")
     fails: list = []
     d = run_cases(res, rng, 12 if tier == "quick" else 150, 400 if tier == "quick" else 20000, fails)
+    fails += render_headers(res, rng)
     fails += timing_evidence(res, rng)
     return fails, d.compare()
 
